@@ -471,7 +471,7 @@ func c06SeamFull(r *ev.Report) {
 
 func init() {
 	// Bits, the ladder, comparisons and Random all sit on the Fiat scalar arithmetic and its domain conversions
-	for _, pid := range []string{"C01", "C13", "C14", "C18"} {
+	for _, pid := range []string{"C01", "C10", "C13", "C14", "C18"} {
 		Parts[pid+"scalar"] = Part{pid, c06SeamLight}
 	}
 
